@@ -30,13 +30,15 @@ Definition cmpG (s : dirmap) (orig res : sx) : nat := cmpo (gateaux s (sx2t orig
 Definition cmpM (eps : string) (s : dirmap) (orig res : sx) : nat := cmpo (lin_integrand eps s (sx2t orig)) (sx2t res).
 Definition cmpE (a b : sx) : nat := if tequiv (sx2t a) (sx2t b) then 0 else 1.
 Definition cmpN (orig rhs : sx) : nat := if tequiv (TOpp (sx2t orig)) (sx2t rhs) then 0 else 1.
-(* the surviving regions of the model: 10 + region ; 98 = outside the model ; 99 = reduce(add, []) *)
+Definition cmpP (eps : string) (s : dirmap) (orig res : sx) : nat := cmpo (lin_poly eps s (sx2t orig)) (sx2t res).
+(* the surviving regions of the model: 10 + region (none = the zero form) ; 98 = outside the model ;
+   then 0 / 1 / 2 : model_newton = NOk / NZeroFormNoEquation / NUnsupported *)
 Definition regs (eps : string) (s : dirmap) (f : list (nat * sx)) : list nat :=
-  match model_linearize eps s (map (fun re => (fst re, sx2t (snd re))) f) with
-  | LOk parts => map (fun re => 10 + fst re) parts
-  | LEmptyReduce => [99]
-  | LUnsupported => [98]
-  end.
+  let f' := map (fun re => (fst re, sx2t (snd re))) f in
+  (match model_linearize eps s f' with
+   | LOk parts => map (fun re => 10 + fst re) parts
+   | _ => [98]
+   end) ++ [match model_newton eps s f' with NOk _ _ => 0 | NZeroFormNoEquation => 1 | NUnsupported => 2 end].
 """
 
 REG = {"domain": 0, "boundary": 1}
@@ -265,6 +267,9 @@ def evaluate(run, cases, tag="main"):
                 if ri == ref:
                     items.append("cmpM %s %s %s %s" % (coq_str(EPS), s, X.coq_sx(o), X.coq_sx(res)))
                     layout.append(("M", ri, reg, reg in got))
+                    if X.sx_size(o) <= 60:
+                        items.append("cmpP %s %s %s %s" % (coq_str(EPS), s, X.coq_sx(o), X.coq_sx(res)))
+                        layout.append(("P", ri, reg, reg in got))
         for ri, rn in enumerate(runs):
             if ref is None or ri == ref or not rn["ok"]:
                 continue
@@ -308,7 +313,7 @@ def evaluate(run, cases, tag="main"):
             rec = recs[ci]
             if len(vals) != len(rec["layout"]):
                 continue
-            rec["coq"] = {"regs": rg, "vals": vals}
+            rec["coq"] = {"regs": rg[:-1], "newton": rg[-1] if rg else 2, "vals": vals}
     return recs
 
 
@@ -335,8 +340,8 @@ def classify(rec):
         errs = sorted({rn.get("err") for rn in runs})
         if errs == ["unsupported-node"]:
             return "skipped:unsupported-node", runs[0].get("msg"), None
-        if errs == ["TypeError"] and model == [99]:
-            return "EMPTY_REDUCE", "every integral vanishes: reduce(add, []) raises instead of returning the zero form", \
+        if errs == ["TypeError"] and model == []:
+            return "EMPTY_REDUCE", "every integral vanishes: linearize raises TypeError (reduce(add, [])) instead of returning the zero form", \
                 {"kind": "exception", "exc": "TypeError", "model": "empty-reduce"}
         if model == [98]:
             return "both_refuse", ",".join(errs), None
@@ -370,6 +375,9 @@ def classify(rec):
                         notes["undecided"] += 1
         elif kind == "M":
             notes["model_proved" if v == 0 else "model_unproved" if v == 1 else "model_none"] += 1
+        elif kind == "P":
+            k2 = "poly_arm_proved" if v == 0 else "poly_arm_unproved" if v == 1 else "poly_arm_not_applicable"
+            notes[k2] = notes.get(k2, 0) + 1
         elif kind == "E":
             if v != 0:
                 # the other run is also compared with gateaux (layout G, same run): only a double failure matters
@@ -389,16 +397,26 @@ def classify(rec):
             {"kind": "wrong-derivative"}
     # regions: the model and the implementation must keep the same integrals
     got_regs = sorted(10 + REG[i["region"]] for i in runs[ref]["integrands"])
-    if model not in ([98],) and sorted(model) != got_regs:
+    if model != [98] and sorted(model) != got_regs:
         # a dropped integral whose derivative really vanishes is fine either way: decided by the oracle
         miss = [reg for reg in REG if (10 + REG[reg] in model) != (10 + REG[reg] in got_regs)]
         if any(orc.get(reg, {}).get("ok") is False for reg in miss):
             return "WRONG_DERIVATIVE", "an integral was dropped / kept wrongly", {"kind": "wrong-derivative"}
         rec["region_mismatch"] = True
     nw = r.get("newton") or {}
+    zero_form = not runs[ref]["integrands"]
+    if zero_form and nw.get("ok"):
+        return "NEWTON_EXCEPTION", "NewtonIteration returned an equation for the zero form", {"kind": "newton-zero-form-accepted"}
     if not nw.get("ok"):
-        if nw.get("err") == "unsupported-node" or not runs[ref]["integrands"]:
-            return "ok", None, None          # (no Newton step for a form that does not depend on the fields)
+        if nw.get("err") == "unsupported-node":
+            return "ok", None, None
+        if zero_form and d.get("newton") == 1 and nw.get("err") == "ValueError":
+            return "ok", None, None          # a clear refusal: there is no Newton step for a form independent of the fields
+        if zero_form and d.get("newton") == 1 and nw.get("err") == "AttributeError":
+            # the model follows the code: `a.variables` of the number 0
+            return "NEWTON_ZERO_FORM", "NewtonIteration of a form that does not depend on the field raises AttributeError " \
+                "('Zero' object has no attribute 'variables') instead of a clear refusal / an equation with the zero form", \
+                {"kind": "newton-exception", "exc": "AttributeError", "model": "zero-form"}
         return "NEWTON_EXCEPTION", "linearize returns a form but NewtonIteration raises %s" % nw.get("err"), \
             {"kind": "newton-exception", "exc": nw.get("err")}
     return "ok", None, None
@@ -492,7 +510,7 @@ def main(run, replay=None):
     distinct = set()
     hist = {"dim": {}, "fields": {}, "tests": {}, "regions": {}, "size": {}}
     ops, agg = {}, {"proved": 0, "checker_incomplete": 0, "undecided": 0, "model_proved": 0, "model_unproved": 0, "model_none": 0,
-                 "other_names_unproved": 0}
+                 "other_names_unproved": 0, "poly_arm_proved": 0, "poly_arm_unproved": 0, "poly_arm_not_applicable": 0}
 
     def bump(h, k):
         hist[h][str(k)] = hist[h].get(str(k), 0) + 1
@@ -515,7 +533,7 @@ def main(run, replay=None):
         for i in r["orig"]:
             for k, v in X.sx_ops(i["sx"]).items():
                 ops[k] = ops.get(k, 0) + v
-        if rec["status"] == "ok" and sz >= 5:
+        if rec["status"] in ("ok", "NEWTON_ZERO_FORM") and sz >= 5:
             distinct.add(canon_hash([[i["sx"] for i in r["orig"]], c["fields"], c["trials"]]))
     cov = {
         "evaluations": len([r for r in recs if r["res"] is not None]),
